@@ -79,6 +79,11 @@ BASE = {
     },
 }
 
+# the same module with its imports INTERLEAVED across kinds (index spaces per kind are unchanged, the position of an
+# import in the import section no longer equals its index in its own space: ImportsID != FunctionID / GlobalID)
+BASE_INTERLEAVED = dict(BASE, imports=[BASE["imports"][i] for i in (3, 0, 5, 1, 4, 6, 2)])
+BASES = [("grouped-imports", BASE), ("interleaved-imports", BASE_INTERLEAVED)]
+
 REFKIND = {"global.get": "G", "global.set": "G", "call": "F", "return_call": "F", "ref.func": "F", "i32.load": "M", "memory.size": "M"}
 
 
@@ -539,7 +544,7 @@ def menu(kind):
     if kind in ("F",):
         creator("add_local_func(return_call base local)", lambda k, c: {"op": "add_local_func", "body": [["return_call", B(3)]]}, "F")
         creator("inject return_call(base import)", lambda k, c: {"op": "inject", "func": B(4), "at": 0, "mode": "before", "ops": [["return_call", B(1)]]}, None)
-        creator("replace_import(unreferenced import)", lambda k, c: {"op": "replace_import", "import_id": 3, "body": [["call", B(2)], ["i32.const", 780 + k], ["i32.add"]]}, None)
+        creator("replace_import(unreferenced import)", lambda k, c: {"op": "replace_import", "import": "ifx", "body": [["call", B(2)], ["i32.const", 780 + k], ["i32.add"]]}, None)
         creator("add_local_func(call earlier)", lambda k, c: {"op": "add_local_func", "body": [["call", R(c["F"][-1])], ["i32.const", 950 + k], ["i32.add"]]} if c["F"] else None, "F")
         creator("inject call(base import)", lambda k, c: {"op": "inject", "func": B(4), "at": 0, "mode": "after", "ops": [["call", B(1)], ["i32.add"]]}, None)
         creator("inject call(earlier)", lambda k, c: {"op": "inject", "func": B(4), "at": 0, "mode": "after", "ops": [["call", R(c["F"][-1])], ["i32.add"]]} if c["F"] else None, None)
@@ -552,8 +557,8 @@ def menu(kind):
         creator("delete_func(referenced base local)", lambda k, c: {"op": "delete_func", "id": B(5)}, None)
         creator("delete_func(earlier, observed)", lambda k, c: {"op": "delete_func", "id": R(c["Fo"][-1])} if c["Fo"] else None, None)
     if kind in ("F10",):
-        creator("replace_import(referenced import)", lambda k, c: {"op": "replace_import", "import_id": 4, "body": [["i32.const", 770 + k]]}, None)
-        creator("replace_import(unreferenced import)", lambda k, c: {"op": "replace_import", "import_id": 3, "body": [["call", B(2)], ["i32.const", 780 + k], ["i32.add"]]}, None)
+        creator("replace_import(referenced import)", lambda k, c: {"op": "replace_import", "import": "if0", "body": [["i32.const", 770 + k]]}, None)
+        creator("replace_import(unreferenced import)", lambda k, c: {"op": "replace_import", "import": "ifx", "body": [["call", B(2)], ["i32.const", 780 + k], ["i32.add"]]}, None)
         creator("inject call(replaced import)", lambda k, c: {"op": "inject", "func": B(4), "at": 0, "mode": "after", "ops": [["call", B(0)], ["i32.add"]]}, None)
     if kind in ("F11",):
         creator("convert_local_to_import(referenced local)", lambda k, c: {"op": "convert_local_to_import", "id": B(2), "name": "cv%d" % k}, None)
@@ -707,7 +712,12 @@ def make_cases(pid, tier, seed):
         hs = short + pinned + (rnd.sample(rest, 1500) if len(rest) > 1500 else rest)
     cases = []
     for i, (names, steps) in enumerate(hs):
-        cases.append({"kind": "hist", "id": "%s-m%05d" % (pid, i), "base": BASE, "hist": steps, "names": names,
+      for bname, base in BASES:
+        steps = json.loads(json.dumps(steps))
+        for st in steps:
+            if st["op"] == "replace_import":
+                st["import_id"] = [x["name"] for x in base["imports"]].index(st["import"])
+        cases.append({"kind": "hist", "id": "%s-m%05d-%s" % (pid, i, bname[0]), "base": base, "base_name": bname, "hist": steps, "names": names,
                       **({"encode_twice": True, "only_second": True} if pid == "C05" else {}),
                       **({"judge_names": True} if pid == "C29" else {}),
                       **({"judge_builder": True} if pid == "C12" else {})})
@@ -921,7 +931,7 @@ def judge_side_effects(case, r, rm, spec, impl):
 
 
 def role_of(case):
-    return " ; ".join(case["names"])
+    return " ; ".join(case["names"])      # (the base variant is not part of the role: a finding is keyed by its history)
 
 
 # ------------------------------------------------------------------------------------------------ engine entry
@@ -940,7 +950,7 @@ def run_engine_m(pid, tier, seed, out, ev):
     byid = {r["id"]: r for r in results}
     mres = {"programs": 0, "obligations": 0, "unsat": 0, "sat": 0, "loud_failures_as_prescribed": 0, "solver_s": 0.0, "samples": [],
             "functions": ["src/ir/module/mod.rs: Module::parse, Module::encode / encode_internal (import, global, export, element, data, table, code emission with ID remapping), add_global*, add_imported_global*, delete_global, mod_global_init_expr, add_import_func, add_local_func (FunctionBuilder::finish_module), delete_func, add_import_memory, add_local_memory, delete_memory, add_data, ModuleExports::{add_export_func, add_export_mem, delete}, FunctionModifier injection, ModuleIterator::add_global -- executed natively by tv/driver (src/hist.rs); their OUTPUT is validated"],
-            "bounds": ["engine M: one base module (2 imported + 4 local globals, 1 imported + 4 local functions, 1 imported + 2 local memories, 2 tables, 10 exports, 2 element segments, 3 data segments; vlib/mv.py BASE); histories: %s from the %s menu of vlib/mv.py (creators both observed through an export and unobserved); host environment symbolic: 32-bit value per imported global / imported function result / memory size, an array per memory" % ("every sequence of <= 2 steps + a seeded sample of 1500 three-step sequences" if tier == "quick" else "every sequence of <= 3 steps", FAMILY[pid])],
+            "bounds": ["engine M: one base module in two variants (imports grouped by kind / interleaved across kinds) (3 imported + 4 local globals, 1 imported + 4 local functions, 1 imported + 2 local memories, 2 tables, 10 exports, 2 element segments, 3 data segments; vlib/mv.py BASE); histories: %s from the %s menu of vlib/mv.py (creators both observed through an export and unobserved); host environment symbolic: 32-bit value per imported global / imported function result / memory size, an array per memory" % ("every sequence of <= 2 steps + a seeded sample of 1500 three-step sequences" if tier == "quick" else "every sequence of <= 3 steps", FAMILY[pid])],
             "assumptions": ["engine M validates the OUTPUT of the real parse -> edit -> encode pipeline (translation validation): the pipeline is run natively per history, z3 decides the equivalence of the output's instantiation semantics with the reference semantics for all host values",
                             "function bodies of the base are straight-line (const, global.get, call, i32.add, i32.load, memory.size): control flow inside bodies is engine T's subject; mutable-global writes, table contents beyond initialisers, start functions and passive segments are outside"]}
     violations = []
